@@ -1,8 +1,8 @@
 //! `simthreads` — C19: concurrent runs of one compiled filter equal isolated runs.
 //!
 //! * S0 (type level): the assertions in `static_facts` must compile.
-//! * `oracle <pi> <xi>`: a fresh process that does nothing but compile program `pi` and run it
-//!   on input `xi`; prints the output stream. This is the *isolated* run.
+//! * `oracle <pi>`: a fresh process that does nothing but compile program `pi` and run it on
+//!   every input; prints the output streams. These are the *isolated* runs.
 //! * `run <table.json> <seed> <iters> <random|pct> <dir>`: shuttle-scheduled threads sharing one
 //!   `Arc<Filter>` per program; each thread's stream must equal the isolated one.
 //! * `replay <table.json> <schedule-file>`: re-executes one persisted failing schedule.
@@ -315,11 +315,11 @@ fn main() {
             println!("{}", serde_json::json!({"programs": PROGRAMS, "inputs": INPUTS, "sync": cfg!(feature = "sync")}));
         }
         "oracle" => {
+            // a fresh process per program: compile it, run it on every input, nothing else
             let pi: usize = a(1).parse().expect("pi");
-            let xi: usize = a(2).parse().expect("xi");
-            let out = match compile(PROGRAMS[pi]) {
-                Ok(f) => run_stream(&f, parse(INPUTS[xi]), || {}),
-                Err(e) => vec![format!("# does not compile: {e}")],
+            let out: Vec<Vec<String>> = match compile(PROGRAMS[pi]) {
+                Ok(f) => INPUTS.iter().map(|x| run_stream(&f, parse(x), || {})).collect(),
+                Err(e) => INPUTS.iter().map(|_| vec![format!("# does not compile: {e}")]).collect(),
             };
             println!("{}", serde_json::to_string(&out).unwrap());
         }
